@@ -95,6 +95,13 @@ def run_scenario(sc: dict[str, Any]) -> dict[str, Any]:
         def mk_timer(hid: str, c: dict[str, Any]):
             async def tick(**_):
                 sim.rec('t.tick', h=hid)
+                if c.get('dur'):         # a function that takes a while: the object is held while it runs (timers are waited for, not cancelled)
+                    try:
+                        await asyncio.sleep(c['dur'])
+                    except asyncio.CancelledError:
+                        sim.rec('t.cancel', h=hid); raise
+                    finally:
+                        sim.rec('t.end', h=hid)
             tick.__name__ = tick.__qualname__ = hid
             return tick
         use_label = sc.get('label_filter', True)
@@ -189,6 +196,9 @@ def run_scenario(sc: dict[str, Any]) -> dict[str, Any]:
             elif ev == 'd.cancel': out.append({'ev': 'cancel', 't': t, 'h': e['h']})
             elif ev == 'd.exit': out.append({'ev': 'exit', 't': t, 'h': e['h'], 'how': e['how']})
             elif ev == 'op.stop': out.append({'ev': 'opexit', 't': t})
+            # (the runs of a timer's function that takes a while: for TickMonitor.tla only)
+            elif ev in ('t.tick', 't.end', 't.cancel') and sc['handlers'].get(e['h'], {}).get('dur'):
+                out.append({'ev': {'t.tick': 'tick', 't.end': 'tickend', 't.cancel': 'tickcancel'}[ev], 't': t, 'h': e['h']})
             elif ev == 'peer.eval' and bool(e.get('paused')) != pstate['on']:
                 pstate['on'] = bool(e.get('paused')); out.append({'ev': 'paused', 't': t, 'on': pstate['on']})
             elif ev == 'quiet': out.append({'ev': 'quiet', 't': t})
@@ -437,7 +447,7 @@ def judge(traces: list[dict[str, Any]], rep: Any, focus: str = '') -> dict[str, 
     try:
         path = os.path.join(scratch, 'traces.json')
         with open(path, 'w') as f:
-            json.dump([{'id': t['id'], 'conf': t['conf'], 'events': t['events']} for t in traces], f)
+            json.dump([{'id': t['id'], 'conf': t['conf'], 'events': [e for e in t['events'] if not e['ev'].startswith('tick')]} for t in traces], f)
         cfg = 'SPECIFICATION Spec\nCONSTANT Hs = {"d1", "d2", "t1"}\nCONSTANT Focus = "' + focus + '"\nCONSTRAINT Book\nPOSTCONDITION Verdicts\nCHECK_DEADLOCK FALSE\n'
         r = tlc.run('DaemonMonitor', cfg_text=cfg, workers=1, env={'TRACE_FILE': path}, timeout=1800)
     finally:
@@ -448,4 +458,45 @@ def judge(traces: list[dict[str, Any]], rep: Any, focus: str = '') -> dict[str, 
     got = {int(m.group(1)): m.group(3) for m in _RE.finditer(r.out)}
     if len(got) != len(traces) or 'incomplete' in got.values():
         raise MachineryFailure(f'DaemonMonitor: {len(got)} verdicts for {len(traces)} traces, incomplete={list(got.values()).count("incomplete")}\n{r.out[-1500:]}')
+    return {t['id']: got[i] for i, t in enumerate(traces, start=1)}
+
+
+# ---------------------------------------------------------------------------------------------------------------------
+# A timer's function that takes a while (TickMonitor.tla): the object is held while it runs -- timers are waited for (polled), never
+# cancelled and never given up, whatever the daemons next to them are granted.
+def tick_scenarios(seed: int, n: int) -> list[dict[str, Any]]:
+    rnd = random.Random(f'ticks-{seed}')
+    out = []
+    for i in range(n):
+        hs: dict[str, Any] = {}
+        k = rnd.choice([0, 1, 1, 2])
+        for hid in ['d1', 'd2'][:k]:
+            reaction = rnd.choice(['ignore', 'ignore', 'cancel', 'obey'])
+            hs[hid] = {'kind': 'daemon', 'reaction': reaction, 'after': rnd.choice([0, 2]) if reaction == 'obey' else 0, 'backoff': rnd.choice([0, 1, 2]), 'timeout': rnd.choice([1, 2, 3])}
+        dur = rnd.choice([6, 9, 12])
+        hs['t1'] = {'kind': 'timer', 'interval': rnd.choice([2, 4]), 'idle': 0, 'dur': dur}
+        # the first run starts with the object (t = 1), the next ones `interval` after the end of the previous one: stop in the middle of a run
+        t_del = 1 + rnd.randint(1, dur - 2) + rnd.choice([0, dur + hs['t1']['interval']])
+        out.append({'id': f'ticks-{seed}-{i}', 'handlers': hs, 'env': [(t_del, 1, rnd.choice(['delete', 'delete', 'toggle']))], 'init_on': True,
+                    'delete_before_finalizer': False, 'end': t_del + 60})
+    return out
+
+
+def judge_ticks(traces: list[dict[str, Any]], rep: Any) -> dict[str, str]:
+    scratch = tempfile.mkdtemp(prefix='vf-tick-')
+    try:
+        path = os.path.join(scratch, 'traces.json')
+        keep = ('obj', 'released', 'opexit', 'tick', 'tickend', 'tickcancel', 'quiet')
+        with open(path, 'w') as f:
+            json.dump([{'id': t['id'], 'events': [dict({'h': '', 'byop': False, 'match': False, 'exists': False}, **e) for e in t['events'] if e['ev'] in keep]} for t in traces], f)
+        r = tlc.run('TickMonitor', cfg_text='SPECIFICATION Spec\nCONSTRAINT Book\nPOSTCONDITION Verdicts\nCHECK_DEADLOCK FALSE\n', workers=1,
+                    env={'TRACE_FILE': path}, timeout=900)
+    finally:
+        shutil.rmtree(scratch, ignore_errors=True)
+    if not r.ok:
+        raise MachineryFailure(f'TickMonitor failed: {r.violated} {r.errors}\n{r.out[-3000:]}')
+    rep.add_tlc('TickMonitor', r)
+    got = {int(m.group(1)): m.group(3) for m in _RE.finditer(r.out)}
+    if len(got) != len(traces) or 'incomplete' in got.values():
+        raise MachineryFailure(f'TickMonitor: {len(got)} verdicts for {len(traces)} traces\n{r.out[-1500:]}')
     return {t['id']: got[i] for i, t in enumerate(traces, start=1)}
